@@ -52,6 +52,7 @@ type Config struct {
 	Healthy           bool  `json:"healthy,omitempty"`
 	GatePermille      int   `json:"gate_permille,omitempty"`       // chance (per mille) that a channel/mutex operation of the engine parks at a gate
 	MaxGates          int   `json:"max_gates,omitempty"`           // gate parks per run
+	GateMaxDelay      int   `json:"gate_max_delay,omitempty"`      // a gate park lasts up to this many scheduler steps
 	GateBoost         []int `json:"gate_boost,omitempty"`          // site classes (site id mod 16) with a boosted chance
 	GateBoostPermille int   `json:"gate_boost_permille,omitempty"` // that chance
 }
@@ -150,6 +151,7 @@ func GenConfig(seed int64, family string) *Config {
 	// gates (drawn last: everything above is unchanged by them)
 	c.GatePermille = pick(r, 0, 0, 0, 0, 2, 10, 40)
 	c.MaxGates = pick(r, 3, 10, 40, 200)
+	c.GateMaxDelay = pick(r, 0, 0, 4, 30, 120)
 	// favoured sites: a run that uses gates boosts a few site classes (site id mod 16) to a high
 	// probability, so that the two or three preemptions one window needs can coincide
 	if c.GatePermille > 0 && r.IntN(2) == 0 {
